@@ -10,10 +10,12 @@ def sh(cmd, cwd=None):
     return p.returncode, p.stdout
 
 
+SRC = os.environ.get('SEED_SRC', '/tmp/seed-out')
+SUFFIX = os.environ.get('SEED_SUFFIX', '')
 for prop in sys.argv[1:]:
-    wt = '/tmp/seed-%s' % prop
-    for x in sorted(os.listdir('/tmp/seed-out/%s' % prop)):
-        d = '/tmp/seed-out/%s/%s' % (prop, x)
+    wt = os.environ.get('SEED_WT', '/tmp/seed-%s' % prop)
+    for x in sorted(os.listdir('%s/%s' % (SRC, prop))):
+        d = '%s/%s/%s' % (SRC, prop, x)
         if not os.path.isfile(os.path.join(d, 'patch.diff')):
             continue
         sh('git checkout -- . && git clean -fdq transitions', wt)
@@ -31,7 +33,7 @@ for prop in sys.argv[1:]:
         ok = rc0 == 0 and rc1 != 0 and '1368 passed' in out2 and 'failed' not in out2
         print(prop, x, 'OK' if ok else 'REJECTED', ran)
         if ok:
-            dst = os.path.join(V, 'seeded', prop, x)
+            dst = os.path.join(V, 'seeded', prop, x + SUFFIX)
             os.makedirs(dst, exist_ok=True)
             for f in ('patch.diff', 'demo.py'):
                 shutil.copy(os.path.join(d, f), dst)
